@@ -49,6 +49,16 @@ pub fn run_c14(ctx: &Ctx) {
             let r = Cmd::new(&["address", "--mnemonic", GANACHE, "--hd-path", t]).run(Build::Release); ctx.eval(format!("bare-root:{}", r.ok())); if r.crashed() { ctx.panic_violation("C14:cli:bare-root:crash", r.describe(), serde_json::json!({"sweep": "cli-hd-path", "index": i})); } return; } else { want } } else { want };
         verdict(ctx, "C14", "cli-hd-path", i, &format!("path,ref={}", class.name()), &Cmd::new(&["address", "--mnemonic", GANACHE, "--hd-path", t]), want);
     });
+    // the ENVIRONMENT channel, with what env files and shells add or lose: a path that ends in a hardened marker (the marker
+    // is an apostrophe), surrounding quotes, blanks
+    let envp = ["m/0'", "m/44'/60'/0'", "m/44'/60'/0'/0/3", "m/1'/2'", "'m/0'", "'m/0''", "\"m/0\"", "\"m/0'\"", "m/0''", " m/0'", "m/0' ", "'m/44'/60'/0'/0/0'", "m/0\"", "`m/0`"];
+    ctx.sweep("cli-hd-path-environment", "`address` with HD_PATH in the environment: paths that end in a hardened component, and the same wrapped in single / double quotes, back-ticks or blanks (not a path: refused, or - unambiguous blanks - the same account)", envp.len() as u64 * 2, |i| {
+        let t = envp[i as usize / 2]; let class = classify_path(t);
+        let want = match class.clone() { Class::Accept(p) => Class::Accept(address_text(&curve, &key_of(&curve, GANACHE, "", &p))), Class::Unc(p) if !p.is_empty() => Class::Unc(address_text(&curve, &key_of(&curve, GANACHE, "", &p))), Class::Unc(_) => return, Class::Reject => Class::Reject };
+        let cmd = if i % 2 == 0 { Cmd::new(&["address"]).env("MNEMONIC", GANACHE).env("HD_PATH", t) } else { Cmd::new(&["export", "--mnemonic", GANACHE]).env("HD_PATH", t) };
+        let want = if i % 2 == 0 { want } else { match class { Class::Accept(p) => Class::Accept(format!("0x{}", key_of(&curve, GANACHE, "", &p).to_hex64())), Class::Unc(p) => Class::Unc(format!("0x{}", key_of(&curve, GANACHE, "", &p).to_hex64())), Class::Reject => Class::Reject } };
+        verdict(ctx, "C14", "cli-hd-path-environment", i, &format!("env-path,ref={}", classify_path(t).name()), &cmd, want);
+    });
     let idx = ["0", "1", "2", "1000", "2147483646", "2147483647", "2147483648", "4294967295", "4294967296", "18446744073709551615", "\u{ff11}", "\u{b2}", "\u{661}", "+1", "1 "];
     ctx.sweep("cli-account-index", "`address --account-index i` (flag and environment) for i at 0, 1, 2, 1000, 2^31-2, 2^31-1 (account m/44'/60'/0'/0/i) and 2^31, 2^32-1, 2^32, 2^64-1 (refused)", (idx.len() * 2) as u64, |i| {
         let t = idx[i as usize / 2]; let canonical = !t.is_empty() && t.bytes().all(|b| b.is_ascii_digit()) && (t == "0" || !t.starts_with('0')); let v: u128 = match t.parse::<u128>().ok().filter(|_| canonical) { Some(v) => v, None => { // not a decimal number in ASCII digits: refused, or (exotic but unambiguous ASCII spellings) the account of that number
